@@ -903,13 +903,28 @@ const (
 	c36ClsFlagMn
 	c36ClsECSimplify
 	c36ClsECMinify
+	c36ClsTiny // zero-byte files and files shorter than formatPath's 9..32-byte shebang sniff
 )
 
-func c36ClsSimplifies(cls int) bool { return cls != c36ClsRandom }
+func c36ClsSimplifies(cls int) bool { return cls != c36ClsRandom && cls != c36ClsTiny }
 func c36ClsMinifies(cls int) bool   { return cls == c36ClsFlagMn || cls == c36ClsECMinify }
+
+// Files around the shebang sniff of formatPath (io.ReadAtLeast(f, buf[:32], 9)): nothing to read (EOF),
+// a short read (1..8 bytes), exactly 9 bytes.  An empty file formats to "\n", so it is not a fixed point.
+var c36Tiny = []string{"", "", "", "\n", "#", "#!", "#!/b", "a", " ", "a\n", "#!/bin/s", "#!/bin/sh", "\n\n", "x=1\n", "#!/bin/sh\n", "\t"}
 
 // c36GenSourceCls biases towards simplifiable files when the option class simplifies.
 func c36GenSourceCls(r *Rand, bashOK bool, cls int) (string, string) {
+	if (cls == c36ClsTiny && r.Chance(80)) || r.Chance(7) {
+		src := r.Pick(c36Tiny)
+		switch {
+		case src == "":
+			return src, "src:tiny-empty"
+		case len(src) < 9:
+			return src, "src:tiny-short"
+		}
+		return src, "src:tiny-9+"
+	}
 	if c36ClsSimplifies(cls) && r.Chance(50) {
 		if c36ClsMinifies(cls) && r.Chance(50) {
 			return c36GenSimplifiable(r, bashOK, true), "src:simplifiable-minified"
@@ -1073,6 +1088,30 @@ func c36GenCase(r *Rand, cls int) (cs c36Case, tags []string) {
 			cs.flags.p = "-" // keep these cases away from the -p/-ln start-up error
 		}
 	}
+	if cls == c36ClsTiny {
+		// language flag classes: automatic (EditorConfig mode or an unrelated flag), -ln=<lang>, -ln=auto, -p
+		cs.flags = c36NoFlags()
+		switch r.Intn(7) {
+		case 0, 1:
+			tags = append(tags, "tiny:lang-auto(ec)")
+		case 2:
+			cs.flags.indent = "2"
+			tags = append(tags, "tiny:lang-auto(flags)")
+		case 3:
+			cs.flags.ln = "auto"
+			tags = append(tags, "tiny:-ln=auto")
+		case 4:
+			cs.flags.ln = r.Pick([]string{"bash", "posix", "mksh", "zsh"})
+			tags = append(tags, "tiny:-ln=lang")
+		case 5:
+			cs.flags.p = "1"
+			tags = append(tags, "tiny:-p")
+		case 6:
+			cs.flags.s = "1"
+			tags = append(tags, "tiny:lang-auto(flags)")
+		}
+		tags = append(tags, "cls:tiny")
+	}
 	if cs.flags.useEC() {
 		tags = append(tags, "opts:editorconfig")
 	} else {
@@ -1094,10 +1133,17 @@ func c36GenCase(r *Rand, cls int) (cs c36Case, tags []string) {
 	}
 	used := map[string]bool{}
 	nf := 1 + r.Intn(7)
+	if cls == c36ClsTiny {
+		nf = 4 + r.Intn(5)
+	}
 	for i := 0; i < nf; i++ {
 		name := r.Pick(c36ShellNames)
 		if r.Chance(35) {
 			name = r.Pick(c36OtherNames)
+		}
+		if cls == c36ClsTiny {
+			// every naming class: .sh, other shell extensions, no extension, hidden, non-shell
+			name = r.Pick([]string{"a.sh", "f.sh", "b.bash", "c.mksh", "d.bats", "e.zsh", "noext", "script", "x.posix", ".hidden.sh", "tool.py"})
 		}
 		rel := filepath.Join(r.Pick(dirs), name)
 		if used[rel] {
@@ -1548,7 +1594,7 @@ func c36RunCase(c *Ctx, cs c36Case, r *Rand, replay bool) (res c36Result) {
 	n4 := 0
 	for _, p := range files {
 		o := per[p]
-		if o.st != 0 || n4 >= 3 {
+		if o.st != 0 || n4 >= 6 {
 			continue
 		}
 		n4++
@@ -1834,12 +1880,16 @@ func c36(c *Ctx) {
 		case k == 7:
 			jobs = append(jobs, job{kind: "equiv", r: r})
 		case k == 8:
-			jobs = append(jobs, job{kind: "stdin", r: r})
+			cls := c36ClsRandom
+			if (i/10)%2 == 1 {
+				cls = c36ClsTiny
+			}
+			jobs = append(jobs, job{kind: "stdin", r: r, cls: cls})
 		case k == 9:
 			jobs = append(jobs, job{kind: "stdin", r: r, cls: 1 + (i/10)%4})
 		default:
-			// classes per block of ten: random, -s, random, EditorConfig simplify, -mn, random, EditorConfig minify
-			cls := []int{c36ClsRandom, c36ClsFlagS, c36ClsRandom, c36ClsECSimplify, c36ClsFlagMn, c36ClsRandom, c36ClsECMinify}[k]
+			// classes per block of ten: random, -s, tiny files, EditorConfig simplify, -mn, random, EditorConfig minify
+			cls := []int{c36ClsRandom, c36ClsFlagS, c36ClsTiny, c36ClsECSimplify, c36ClsFlagMn, c36ClsRandom, c36ClsECMinify}[k]
 			cs, tags := c36GenCase(r, cls)
 			jobs = append(jobs, job{kind: "case", cs: cs, r: r, tags: tags})
 		}
